@@ -65,12 +65,18 @@ def model_and_replay(ctx, stride=1, max_frames=2, max_blocks=2):
 
 
 LENS = [0, 1, 2, 4, 5, 6, 7, 100, 1023, 1024, 1025, 1026, 4095, 16383, 16384, 16385, 65535, 131071, 131072, 131073, 262143, 262144, 262145, 393216]
-CLASSES = ["empty_or_tiny", "all_equal", "random", "text", "skewed", "skewed_match", "periodic", "mixed", "runs"]
+CLASSES = ["empty_or_tiny", "all_equal", "random", "text", "skewed", "skewed_match", "periodic", "mixed", "runs", "skewed_unique"]
 
 
 def random_programs(ctx, n, path):
     rnd = random.Random(ctx.seed * 7919 + 13)
     with open(path, "w") as f:
+        # the full grid of boundary lengths x content classes at level Fastest (section size formats, block boundaries)
+        for ln in LENS:
+            for cls in CLASSES:
+                if cls == "empty_or_tiny" and ln > 4:
+                    continue
+                f.write(json.dumps([{"level": "F", "class": cls, "len": ln, "seed": rnd.randrange(1 << 40), "frag": 0}]) + "\n")
         for i in range(n):
             prog = []
             for k in range(rnd.choice([1, 1, 2, 3])):
